@@ -84,7 +84,7 @@ def flattenCode (cs : List ANode) : List ANode := cs.flatMap fun c => if c.kind 
 
 /-- The body of a code block that is not marked prescribes what its statements prescribe. -/
 theorem specAllL_flattenCode (cs : List ANode)
-    (h : ∀ c ∈ cs, c.kind = .code → ∃ ccs ca, c = .inner .code ccs ca ∧ ca.disabled = false) :
+    (h : ∀ c ∈ cs, c.kind = .code → specAll c = specAllL c.children) :
     specAllL (flattenCode cs) = specAllL cs := by
   induction cs with
   | nil => rfl
@@ -95,9 +95,10 @@ theorem specAllL_flattenCode (cs : List ANode)
     congr 1
     split
     · rename_i hk
-      obtain ⟨ccs, ca, rfl, hd⟩ := h c List.mem_cons_self (by simpa using hk)
-      have hv : isVerbatimNode .code ccs ca = false := by simp [isVerbatimNode, hd]
-      rw [specAll_inner .code ccs ca hv (by decide)]; rfl
+      rw [h c List.mem_cons_self (by simpa using hk)]
     · simp [specAllL_cons]
+
+theorem specAll_empty_code_leaf (a : Attrs) : specAll (.leaf .code "" a) = {} := by
+  apply Streams.ext' <;> simp [specAll, specToks, specCmts, specProse, specLit, specVerb, isCommentKind, Pretty.keepOf]
 
 end Typstyle
